@@ -112,6 +112,22 @@ def file_item(out, item, rep, tmpdir):
                             emit(out, iid, "cli_" + k, rep, f.read(), has_pairs)
                     else:
                         emit(out, iid, "cli_" + k, rep, "<not written>", False)
+                if item.get("rerun") and rep == 0:
+                    # once more with the output files of the first run still in place (a third repetition)
+                    buf = io.StringIO()
+                    sys.argv = argv
+                    try:
+                        with contextlib.redirect_stdout(buf):
+                            annotator.main()
+                    finally:
+                        sys.argv = old
+                    emit(out, iid, kind + "_stdout", 2, buf.getvalue(), has_pairs)
+                    for k, p in outs.items():
+                        if os.path.exists(p):
+                            with open(p, "rb") as f:
+                                emit(out, iid, "cli_" + k, 2, f.read(), has_pairs)
+                        else:
+                            emit(out, iid, "cli_" + k, 2, "<not written>", False)
 
 
 def derive_pdb(text, variant, rnd):
@@ -128,6 +144,8 @@ def derive_pdb(text, variant, rnd):
         if not keys or keys[-1] != key:
             keys.append(key)
     chosen = set(rnd.sample(keys, max(1, min(len(keys), rnd.randint(2, 5)))))
+    if variant in ("protonated", "jitter"):
+        chosen = set(rnd.sample(keys, max(1, len(keys) // 2)))
 
     def shifted(l, d):
         x, y, z = float(l[30:38]) + d, float(l[38:46]) - d, float(l[46:54]) + d / 2
@@ -169,6 +187,23 @@ def derive_pdb(text, variant, rnd):
                 out.append("HETATM" + l[6:17] + "MRX" + l[20:])
             else:
                 out.append(l)
+    elif variant == "protonated":
+        # explicit hydrogens on ring nitrogens (C+ with H3, A+ with H1), 1.0 A from the nitrogen
+        for k, l in enumerate(lines):
+            out.append(l)
+            if k in atoms and l[21:27] in chosen:
+                res, name = l[17:20].strip(), l[12:16].strip()
+                if (res in ("C", "DC") and name == "N3") or (res in ("A", "DA") and name == "N1"):
+                    h = "H3" if name == "N3" else "H1"
+                    hl = shifted(l.ljust(78), 0.58)
+                    out.append(hl[:12] + (" " + h).ljust(4) + hl[16:76] + " H" + hl[78:])
+    elif variant == "jitter":
+        # every chosen residue moved rigidly by a fraction of an angstrom: near-threshold contacts, ties
+        for k, l in enumerate(lines):
+            if k in atoms and l[21:27] in chosen:
+                out.append(shifted(l, 0.15 + 0.1 * (sum(map(ord, l[21:27])) % 6)))
+            else:
+                out.append(l)
     elif variant == "twinchain":
         # static disorder modelled as a second chain on top of the first: the chosen residues once more under
         # another chain identifier, 0.2 A away, both copies with occupancy 0.50 (a tie for the clash filter)
@@ -194,6 +229,71 @@ def derive_pdb(text, variant, rnd):
     else:
         out = lines
     return "\n".join(out) + "\n"
+
+
+def pairfuzz_item(out, item, rep, tmpdir):
+    """Coordinate-level fuzzing of the 3D annotation: two neighbouring residues cut out of a corpus PDB file, the
+    second moved rigidly by up to 1 A and 12 degrees, forty times per item.  About one such fragment in twenty
+    has the two residues matched in two Leontis-Westhof classes at once - the near-threshold, tie-prone geometry
+    that whole corpus files do not contain.  Pure function of (file, gen_seed)."""
+    import io as _io
+    import math
+    import random
+
+    from rnapolis import annotator, parser
+
+    rnd = random.Random(item["gen_seed"])
+    with open(item["source"]) as f:
+        raw = [l for l in f.read().splitlines() if l.startswith(("ATOM  ", "HETATM"))]
+    seen, residues = set(), {}
+    for l in raw:  # first model, first alternate location only
+        k = (l[21:27], l[12:16])
+        if k in seen:
+            continue
+        seen.add(k)
+        residues.setdefault(l[21:27], []).append(l)
+    keys = [k for k in residues if len(residues[k]) >= 8]
+
+    def xyz(l):
+        return (float(l[30:38]), float(l[38:46]), float(l[46:54]))
+
+    cent = {}
+    for k in keys:
+        pts = [xyz(l) for l in residues[k]]
+        cent[k] = tuple(sum(p[d] for p in pts) / len(pts) for d in range(3))
+    cands = [(a, b) for i, a in enumerate(keys) for b in keys[i + 1:]
+             if sum((cent[a][d] - cent[b][d]) ** 2 for d in range(3)) < 9.5 ** 2]
+    outl = []
+    for trial in range(item.get("trials", 40)):
+        if not cands:
+            break
+        a, b = rnd.choice(cands)
+        ax = [rnd.gauss(0, 1) for _ in range(3)]
+        norm = math.sqrt(sum(x * x for x in ax)) or 1.0
+        ax = [x / norm for x in ax]
+        ang = math.radians(rnd.uniform(-12, 12))
+        t = [rnd.uniform(-1.0, 1.0) for _ in range(3)]
+        c, s_ = math.cos(ang), math.sin(ang)
+        cb = cent[b]
+
+        def move(l):
+            p = [xyz(l)[d] - cb[d] for d in range(3)]
+            dot = sum(ax[d] * p[d] for d in range(3))
+            cross = [ax[1] * p[2] - ax[2] * p[1], ax[2] * p[0] - ax[0] * p[2], ax[0] * p[1] - ax[1] * p[0]]
+            q = [p[d] * c + cross[d] * s_ + ax[d] * dot * (1 - c) + cb[d] + t[d] for d in range(3)]
+            return l[:30] + "%8.3f%8.3f%8.3f" % tuple(q) + l[54:]
+
+        text = "\n".join(residues[a] + [move(l) for l in residues[b]]) + "\nEND\n"
+        try:
+            s3d = parser.read_3d_structure(_io.StringIO(text), None)
+            s2d, _ = annotator.extract_secondary_structure(s3d, None, False, False)
+            bi = s2d.baseInteractions
+            outl.append("%d %s|%s" % (trial, ";".join(repr(x) for lst in (bi.basePairs, bi.stackings, bi.baseRiboseInteractions,
+                                                                       bi.basePhosphateInteractions) for x in lst),
+                                        s2d.extendedDotBracket.replace("\n", "/")))
+        except Exception as e:  # noqa: BLE001
+            outl.append("%d raised %s" % (trial, type(e).__name__))
+    emit(out, item["id"], "pairfuzz_annotations", rep, "\n".join(outl), len(outl) > 0)
 
 
 def unifier_gen_item(out, item, rep, tmpdir):
@@ -413,6 +513,31 @@ def tool_item(out, item, rep, tmpdir, nontrivial=None, inputs=None):
             data = fh.read()
         blob.append(os.path.relpath(f, outdir).encode() + b"\n" + data.replace(outdir.encode(), b"<out>") + b"\n")
     emit(out, item["id"], "tool_files", rep, b"".join(blob), len(files) > 0)
+    if item.get("rerun") and rep == 0:
+        # the same command once more into the same directory, with the files of the first run still there: the
+        # bytes it leaves must be the same (reported as a third repetition of the same cell)
+        sys.argv = argv
+        buf2, err2 = io.StringIO(), io.StringIO()
+        status2 = "ok"
+        try:
+            with contextlib.redirect_stdout(buf2), contextlib.redirect_stderr(err2):
+                module.main()
+        except SystemExit as e:
+            status2 = "exit %s" % (e.code,)
+        except Exception as e:  # noqa: BLE001
+            status2 = "raised %s" % type(e).__name__
+        finally:
+            sys.argv = old
+        emit(out, item["id"], "tool_stdout", 2, status2 + "\n" + buf2.getvalue().replace(outdir, "<out>"),
+             len(text) > 0 if nontrivial is None else nontrivial)
+        blob2 = []
+        for root, _, names in sorted(os.walk(outdir)):
+            for n in sorted(names):
+                f = os.path.join(root, n)
+                with open(f, "rb") as fh:
+                    data = fh.read()
+                blob2.append(os.path.relpath(f, outdir).encode() + b"\n" + data.replace(outdir.encode(), b"<out>") + b"\n")
+        emit(out, item["id"], "tool_files", 2, b"".join(blob2), len(blob2) > 0)
     shutil.rmtree(outdir, ignore_errors=True)
 
 
@@ -517,7 +642,8 @@ def adapter_gen_item(out, item, rep, tmpdir):
         argv.append(item.get("flag", "-a"))
     argv += ["--csv", "{out}/o.csv", "--json", "{out}/o.json", "--bpseq", "{out}/o.bpseq",
              "--inter-stem-csv", "{out}/inter.csv", "--stems-csv", "{out}/stems.csv"]
-    tool_item(out, {"id": item["id"], "module": "rnapolis.adapter", "argv": argv}, rep, tmpdir, nontrivial=len(pairs) > 0)
+    tool_item(out, {"id": item["id"], "module": "rnapolis.adapter", "argv": argv, "rerun": item.get("rerun")}, rep, tmpdir,
+              nontrivial=len(pairs) > 0)
 
 
 def main():
@@ -607,6 +733,8 @@ def main():
                         derived_item(out, item, rep, tmpdir)
                     elif item["type"] == "unifier_gen":
                         unifier_gen_item(out, item, rep, tmpdir)
+                    elif item["type"] == "pairfuzz":
+                        pairfuzz_item(out, item, rep, tmpdir)
                     else:
                         bpseq_item(out, item, rep, tmpdir)
                 except Exception as e:  # noqa: BLE001 - an exception is an output too, and must be the same everywhere
